@@ -48,6 +48,10 @@ pub use notification_handler::on_notification_handler;
 pub use request_handler::on_request_handler;
 #[cfg(emmyluals_emmylua_analyzer_rust_verif)]
 pub use semantic_token::verif_semantic_push_and_build;
+#[cfg(emmyluals_emmylua_analyzer_rust_verif)]
+pub use references::references as verif_references;
+#[cfg(emmyluals_emmylua_analyzer_rust_verif)]
+pub use rename::rename as verif_rename;
 pub use response_handler::on_response_handler;
 pub use text_document::register_files_watch;
 
